@@ -100,7 +100,34 @@ static OCase gen_case() {
     if (s.kind != 0) continue;
     int x0 = k ? sc.mx : sc.sx, y0 = k ? sc.my : sc.sy;
     switch (pickw({30, 35, 12, 8, 15})) {
-    case 0: break;  // whatever the scene generator chose
+    case 0:
+      // untransformed: make the request end flush with the image's right/bottom edge (over-reads of vector tails and
+      // "load the next word early" loops live there), preferably with the row ending on a word/vector boundary
+      if (!s.has_transform && !is_yuv(s.bits.code()) && coin(60)) {
+        int x0p = std::max(0, x0), y0p = std::max(0, y0);
+        if (k) {
+          sc.mx = x0p;
+          sc.my = y0p;
+        } else {
+          sc.sx = x0p;
+          sc.sy = y0p;
+        }
+        s.bits.w = x0p + sc.w;
+        s.bits.h = y0p + sc.h;
+        s.bits.pad = 0;
+        s.repeat = 0;
+        if (coin(60)) {
+          // widen the request so that the row's end is aligned to 32/64/128 bits
+          int BPPs = bpp(s.bits.code());
+          int unit = pick<int>({32, 64, 128}) / (BPPs >= 32 ? 32 : BPPs);
+          if (BPPs < 32 && unit < 1) unit = 1;
+          if (BPPs == 24) unit = 4;
+          int tot = ((s.bits.w + unit - 1) / unit) * unit;
+          sc.w += tot - s.bits.w;
+          s.bits.w = tot;
+        }
+      }
+      break;
     case 1:
       // edge hugging on formats with specialised fetchers
       if (coin(70)) s.bits.fmt = fmt_index(pick<pixman_format_code_t>({PIXMAN_a8r8g8b8, PIXMAN_x8r8g8b8, PIXMAN_r5g6b5, PIXMAN_a8}));
@@ -150,6 +177,35 @@ static OCase gen_case() {
       s.kbx = (int)R(0, 4);
       s.kby = (int)R(0, 4);
     }
+  }
+  if (coin(12)) {
+    // "text rendering" shape: solid source through an a1/a8/component-alpha mask that ends flush with its storage
+    sc = gen_plain_scene(70, 5);
+    sc.src = SImg();
+    sc.src.kind = 1;
+    sc.src.color = u32() | (coin(60) ? 0xff000000u : 0u);
+    sc.has_mask = 1;
+    sc.mask_is_src = 0;
+    sc.mask = SImg();
+    sc.mask.kind = 0;
+    sc.mask.bits = gen_bits(fmt_index(pick<pixman_format_code_t>({PIXMAN_a1, PIXMAN_a1, PIXMAN_a8, PIXMAN_a8r8g8b8, PIXMAN_a4})), 1, 1);
+    sc.mask.component_alpha = sc.mask.bits.code() == PIXMAN_a8r8g8b8 && coin(60);
+    sc.op = pick<int>({PIXMAN_OP_OVER, PIXMAN_OP_OVER, PIXMAN_OP_ADD, PIXMAN_OP_SRC, PIXMAN_OP_IN, PIXMAN_OP_OVER_REVERSE});
+    sc.dst.bits.fmt = fmt_index(pick<pixman_format_code_t>({PIXMAN_a8r8g8b8, PIXMAN_x8r8g8b8, PIXMAN_r5g6b5, PIXMAN_a8, PIXMAN_a8b8g8r8, PIXMAN_b5g6r5}));
+    sc.dst.has_clip = 0;
+    sc.mx = (int)R(0, 40);
+    sc.my = (int)R(0, 3);
+    int BPPm = bpp(sc.mask.bits.code());
+    int unit = 32 / BPPm;
+    int tot = ((sc.mx + sc.w + unit - 1) / unit) * unit;
+    if (coin(75)) sc.w += tot - (sc.mx + sc.w);
+    sc.mask.bits.w = sc.mx + sc.w;
+    sc.mask.bits.h = sc.my + sc.h;
+    sc.mask.bits.pad = 0;
+    sc.mask.bits.neg = coin(10);
+    sc.mask.bits.fence = pickw({3, 6, 1});
+    sc.dst.bits.w = std::max(sc.dst.bits.w, sc.dx + sc.w);
+    sc.dst.bits.fence = pickw({3, 5, 2});
   }
   if (coin(8)) {
     sc.dx = (int)pick<int64_t>({-32768, 32767, -100000, 100000});
